@@ -1,7 +1,9 @@
 use crate::engine::Spec;
 
 pub mod c02;
+pub mod c03;
+pub mod c04;
 
 pub fn all() -> Vec<Spec> {
-    vec![c02::spec()]
+    vec![c02::spec(), c03::spec(), c04::spec()]
 }
